@@ -29,7 +29,7 @@ Section AnyState.
     destruct f as [|r]; cbn [impl_step].
     - unfold bs_put_many. rewrite Hc, Hf. cbn [put_many_loop]. rewrite Hp.
       rewrite (put_one_unchanged s c d p _ Hsp) by discriminate. reflexivity.
-    - unfold st_put. rewrite Hp, Hc. rewrite (put_one_unchanged s c d p _ Hsp) by discriminate. reflexivity.
+    - unfold st_put. rewrite Hp, Hc, Hf. rewrite (put_one_unchanged s c d p _ Hsp) by discriminate. reflexivity.
   Qed.
 
   (* Finalize and Discard close the store, whatever state it was in *)
@@ -57,7 +57,7 @@ Section AnyState.
       destruct (bs_finalize_ro s) as [s1 r1]. cbn [fst] in H1, H2.
       pose proof (bs_close_closed s1) as H3. destruct (bs_close s1) as [s2 r2]. cbn [fst] in *.
       apply H3. destruct (ws_closed s) eqn:Ec; [left; congruence|right; apply H2; reflexivity].
-    - unfold st_finalize. destruct (ws_closed s) eqn:Ec; [exact Ec|].
+    - unfold st_finalize. destruct (ws_finalized s) eqn:Ef; [reflexivity|]. rewrite <- Ef. destruct (ws_closed s) eqn:Ec; [exact Ec|].
       destruct (w_v1 (ws_opts s)); [reflexivity|].
       pose proof (store_finalize_flags (set_flags s true (ws_finalized s))) as (H1 & _). exact H1.
   Qed.
@@ -117,7 +117,7 @@ Section AnyState.
       assert (Hc : ws_closed s = true) by (destruct Hfr as [H|[H _]]; [exact H|discriminate]).
       destruct op as [c d|l|c|c|c| | | | | | ]; cbn [impl_step fst]; try (split; [reflexivity|exact Hfr]).
       + unfold st_put. destruct (cid_parse c); [rewrite Hc|]; split; try reflexivity; exact Hfr.
-      + unfold st_finalize. rewrite Hc. split; [reflexivity|exact Hfr].
+      + unfold st_finalize. rewrite Hc. destruct (ws_finalized s); (split; [reflexivity|]); [left; reflexivity|exact Hfr].
   Qed.
 
   (* ... along any continuation of the history *)
@@ -180,6 +180,7 @@ Proof.
     repeat match goal with |- context [if ?b then _ else _] => destruct b end; reflexivity.
   - cbn [puts_of flat_map app]. unfold m_st_put. destruct (cid_parse c) as [p|]; [|apply incl_appl, incl_refl].
     destruct (m_closed m); [apply incl_appl, incl_refl|].
+    destruct (m_finalized m); [apply incl_appl, incl_refl|].
     pose proof (m_put_one_blocks o m c d p) as H. destruct (m_put_one o m c d p) as [m1 r1]. cbn [fst].
     destruct H as ([-> | ->] & _); [apply incl_appl, incl_refl|apply incl_refl].
   - apply Hflags. unfold m_st_finalize.
@@ -220,6 +221,7 @@ Proof.
       cbn [m_put_loop] in Hput. rewrite Hp in Hput. destruct (m_put_one o m c d p) as [m1 r1].
       destruct r1; try discriminate. exists m1. inversion Hput. auto.
     - unfold m_st_put in Hput. rewrite Hp in Hput. destruct (m_closed m); [discriminate|].
+      destruct (m_finalized m); [discriminate|].
       destruct (m_put_one o m c d p) as [m1 r1]. inversion Hput; subst. exists m'. auto. }
   destruct Hone as (m1 & Hone & -> & Hcl).
   assert (Hget : snd (spec_step f o roots m1 (OpGet c)) = m_get o m1 c) by (destruct Hf as [-> | ->]; reflexivity).
@@ -260,7 +262,8 @@ Proof.
     - unfold m_put_many in Hput. destruct (m_closed m); [discriminate|]. destruct (m_finalized m); [discriminate|].
       cbn [m_put_loop] in Hput. rewrite Hp in Hput. destruct (m_put_one o m c d p) as [m1 r1].
       destruct r1; try discriminate. exact Hput.
-    - unfold m_st_put in Hput. rewrite Hp in Hput. destruct (m_closed m); [discriminate|]. exact Hput. }
+    - unfold m_st_put in Hput. rewrite Hp in Hput. destruct (m_closed m); [discriminate|].
+      destruct (m_finalized m); [discriminate|]. exact Hput. }
   unfold m_put_one in Hone.
   destruct (negb (w_storeid o) && is_identity p); [inversion Hone; subst; left; auto|].
   destruct (w_maxcid o <? blen c); [discriminate|].
